@@ -57,7 +57,68 @@ def refsObj (b : Bkt) (payload : Bytes) : Option (List Ref) :=
       ls.map (fun h => (bTrie, h)) ++ (omptValRef payload).map (fun h => (bBlob, h))
   else some []
 
+/-- the value a trie node payload carries itself (leaf value / branch value) -/
+def omptValue (payload : Bytes) : Option Bytes :=
+  match Rlp.decodeItem payload with
+  | some (.list xs, []) =>
+    if xs.length = 17 then
+      match (xs.drop 16).head? with
+      | some (.bytes v) => some v
+      | _ => none
+    else match xs with
+      | [.bytes (h :: _), .bytes v] => if h &&& 0x20 = 0 then none else some v
+      | _ => none
+  | _ => none
+
+def beNat (b : Bytes) : Nat := b.foldl (fun n x => n * 256 + x.toNat) 0
+
+def strOf : Option Rlp.Item → Bytes
+  | some (.bytes b) => b
+  | _ => []
+
+/-- code hash of a contract item `[state, contentType, eeType, deployTx, auditTx, codeHash, params]`
+    (`contract.Resolve`); a nil contract asks for nothing -/
+def codeRef : Option Rlp.Item → List Ref
+  | some (.list ys) => let h := strOf ys[5]?; if h.isEmpty then [] else [(bBlob, h)]
+  | _ => []
+
+/-- `accountSnapshotImpl.Resolve` on the account snapshot
+    `[version, balance, isContract, storeHash, state, owner, apiInfo, cur, next (, flag (, objGraph))]`:
+    API info blob (version ≥ 2: `apiInfoStore.Resolve`), storage trie root (`store.Resolve`, trie
+    bucket), code of the current contract, code of the next contract, object graph blob.
+    `none` = `Reset` cannot decode the value. -/
+def acctRefs (val : Bytes) : Option (List Ref) :=
+  match Rlp.decodeItem val with
+  | some (.list xs, []) =>
+    if xs.length < 9 then none else
+    let api := strOf xs[6]?
+    let st := strOf xs[3]?
+    let og := match xs[10]? with
+      | some (.list [_, .bytes h]) => if beNat (strOf xs[9]?) % 2 = 1 ∧ !h.isEmpty then [(bBlob, h)] else []
+      | _ => []
+    some ((if beNat (strOf xs[0]?) ≥ 2 ∧ !api.isEmpty then [(bBlob, api)] else [])
+      ++ (if st.isEmpty then [] else [(bTrie, st)])
+      ++ codeRef xs[7]? ++ codeRef xs[8]? ++ og)
+  | _ => none
+
+/-- `refs` for world-state tries (accounts trie with `service/state` account snapshots as values,
+    and the bytes-valued storage tries the accounts refer to, all in the trie bucket): children,
+    then what the node's own value resolves. A value is taken for an account snapshot when it is
+    an RLP list; storage values of the generated states never are (see the registry). -/
+def refsWorld (b : Bkt) (payload : Bytes) : Option (List Ref) :=
+  if b == bTrie then
+    match omptLinks payload with
+    | none => none
+    | some ls =>
+      let kids := ls.map fun h => (bTrie, h)
+      match omptValue payload with
+      | some (t :: v) =>
+        if t ≥ 0xc0 then (acctRefs (t :: v)).map (kids ++ ·) else some kids
+      | _ => some kids
+  else some []
+
 def cfg : Cfg := { H := sha3_256, refs := refsBytes }
+def cfgWorld : Cfg := { H := sha3_256, refs := refsWorld }
 def cfgObj : Cfg := { H := sha3_256, refs := refsObj }
 
 def short (b : Bytes) : String := Hex.encode (b.take 4)
@@ -86,27 +147,32 @@ def distinctPairs (st : List Entry) : Nat := (st.map fun e => (e.1, e.2.1)).eras
 structure DS where
   s : St := {}
   started : Bool := false
-  obj : Bool := false
+  mode : Nat := 0     -- 0 bytes-valued trie, 1 harness objects, 2 world state
+
+def cfgOf (mode : Nat) : Cfg := if mode == 1 then cfgObj else if mode == 2 then cfgWorld else cfg
 
 def step (d : DS) (toks : List String) : DS × String :=
   match toks with
   | ["reset"] => ({}, "ok")
+  | ["acct", _, _, _, _, _, _, _] => if d.started then (d, "bad-op") else (d, "ok")
+  | ["stor", _, _, _] => if d.started then (d, "bad-op") else (d, "ok")
   | ["src", _, _] => if d.started then (d, "bad-op") else (d, "ok")
   | ["blob", _] => if d.started then (d, "bad-op") else (d, "ok")
   | [b, r] =>
-    if b == "begin" || b == "begin-obj" then
+    if b == "begin" || b == "begin-obj" || b == "begin-ws" then
       if d.started then (d, "bad-op") else
-      let c := if b == "begin-obj" then cfgObj else cfg
+      let mode := if b == "begin-obj" then 1 else if b == "begin-ws" then 2 else 0
+      let c := cfgOf mode
       match Hex.decodeWire r with
-      | some [] => let s' := start c {} none; ({ s := s', started := true, obj := b == "begin-obj" }, render "ok" s')
-      | some rb => let s' := start c {} (some rb); ({ s := s', started := true, obj := b == "begin-obj" }, render "ok" s')
+      | some [] => let s' := start c {} none; ({ s := s', started := true, mode := mode }, render "ok" s')
+      | some rb => let s' := start c {} (some rb); ({ s := s', started := true, mode := mode }, render "ok" s')
       | none => (d, "bad-op")
     else if b == "data" || b == "datab" then
       -- `data` = OnData(db.MerkleTrie, v), `datab` = OnData(db.BytesByHash, v)
       if !d.started then (d, "bad-op") else
       match Hex.decodeWire r with
       | some vb =>
-        let c := if d.obj then cfgObj else cfg
+        let c := cfgOf d.mode
         let bid := if b == "datab" then bBlob else bTrie
         -- what the served requesters ask for, in serving order (for the `refs=` cross-check)
         let k := c.H vb
